@@ -28,7 +28,7 @@ Fixpoint take_exact {A} (n : nat) (l : list A) : option (list A * list A) :=
 
 (* big-endian unsigned value of a byte string *)
 Fixpoint be_acc (acc : N) (b : bytes) : N :=
-  match b with [] => acc | x :: r => be_acc (acc * 256 + x)%N r end.
+  match b with [] => acc | x :: r => be_acc (256 * acc + x)%N r end.
 Definition be_value (b : bytes) : N := be_acc 0 b.
 
 (* number of leading one bits of a byte: u8::leading_ones / (!b).leading_zeros *)
